@@ -86,9 +86,18 @@ func gateMasks() (out string) {
 		s := xmpp.SASLServer(func(*sasl.Negotiator) bool { return false }, l...)
 		rows = append(rows, fmt.Sprintf("(\"cli\", %s, %d, %d)", leanStrs(names), uint(c.Necessary), uint(c.Prohibited)))
 		rows = append(rows, fmt.Sprintf("(\"srv\", %s, %d, %d)", leanStrs(names), uint(s.Necessary), uint(s.Prohibited)))
+		if probeSink != nil {
+			probeSink("gate cli "+encNames(names), fmt.Sprintf("%d %d", uint(c.Necessary), uint(c.Prohibited)))
+			probeSink("gate srv "+encNames(names), fmt.Sprintf("%d %d", uint(s.Necessary), uint(s.Prohibited)))
+		}
 	}
 	return "some [\n  " + strings.Join(rows, ",\n  ") + "]"
 }
+
+// probeSink, when set (by Run), receives every row of the probe tables as a protocol line and
+// its observation: the tables are then also compared with the driver row by row and judged by
+// the oracle, so that a deviation is reported with the concrete input.
+var probeSink func(line, obs string)
 
 // stateConn is a scripted connection that reports a TLS connection state, the way a
 // *tls.Conn (or the library's own wrappers) does.
@@ -188,6 +197,9 @@ func gateRuns() (out string) {
 					seen = strings.Contains(w, "<mechanisms")
 				}
 				rows = append(rows, fmt.Sprintf("(%q, %d, %q, %s, %s)", role, uint(st), m.Name, leanBool(seen), leanBool(called > 0)))
+				if probeSink != nil {
+					probeSink(fmt.Sprintf("gaterun %s %d %s", role, uint(st), encName(m.Name)), common.B(seen)+" "+common.B(called > 0))
+				}
 			}
 		}
 	}
@@ -266,6 +278,10 @@ func negOpts() (out string) {
 				if pv != "" || !o.ran {
 					return "none"
 				}
+				if probeSink != nil {
+					probeSink(fmt.Sprintf("opts %s %d %s", role, kind, encNames(adv)), fmt.Sprintf("%s %d %s %s %s/%s/%s", common.B(o.tls), o.version,
+						common.Hex(o.unique), encNames(o.remote), common.HexS(o.user), common.HexS(o.pass), common.HexS(o.ident)))
+				}
 				rows = append(rows, fmt.Sprintf("(%q, %d, %s, (%s, %d, %s), %s, (%q, %q, %q))", role, kind, leanStrs(adv),
 					leanBool(o.tls), o.version, leanBytes(o.unique), leanStrs(o.remote), o.user, o.pass, o.ident))
 			}
@@ -319,6 +335,13 @@ func scramGs2() (out string) {
 					}
 				}
 				rows = append(rows, fmt.Sprintf("(%d, %s, %s, %q, %q)", kind, leanStrs(cl), leanStrs(adv), used, flag))
+				if probeSink != nil {
+					u := "-"
+					if used != "-" {
+						u = encName(used)
+					}
+					probeSink(fmt.Sprintf("gs2 %d %s %s", kind, encNames(cl), encNames(adv)), u+" "+flag)
+				}
 			}
 		}
 	}
@@ -334,4 +357,85 @@ func probeFacts(sb *strings.Builder) {
 	fmt.Fprintf(sb, "def saslGateRuns : Option (List (String × Nat × String × Bool × Bool)) := %s\n", gateRuns())
 	sb.WriteString("\n/-- PROBE: what the selected mechanism sees through its negotiator: (role, connection kind, advertised, (TLS state seen, version, tls-unique), remote mechanisms, (user, password, identity)) -/\n")
 	fmt.Fprintf(sb, "def saslNegOpts : Option (List (String × Nat × List String × (Bool × Nat × List Nat) × List String × (String × String × String))) := %s\n", negOpts())
+}
+
+// genProbes runs the probe tables as cases: one line per row (compared with the driver) and an
+// oracle on the real code that is independent of the model.
+func genProbes(r *common.Run) { genProbesOnly(r, "") }
+
+// replayProbe re-runs the table the line belongs to and judges that row only
+func replayProbe(r *common.Run, l string) error {
+	genProbesOnly(r, strings.TrimPrefix(l, r.Prop+" "))
+	return nil
+}
+
+func genProbesOnly(r *common.Run, only string) {
+	probeSink = func(line, obs string) {
+		if only != "" && line != only {
+			return
+		}
+		r.Line(line, obs)
+		f := strings.Fields(line)
+		r.Case(line, true, "probe-"+f[0])
+		lines := []string{r.Prop + " " + line}
+		o := strings.Fields(obs)
+		switch f[0] {
+		case "gate":
+			if obs != fmt.Sprintf("%d %d", uint(xmpp.Secure), uint(xmpp.Authn)) {
+				r.Fail("feature-gated-by-session-state", f[1], lines, "the SASL feature built for these mechanisms is not (Necessary: Secure, Prohibited: Authn): "+obs)
+			}
+		case "gaterun":
+			var st uint
+			fmt.Sscanf(f[2], "%d", &st)
+			open := st&uint(xmpp.Secure) != 0 && st&uint(xmpp.Authn) == 0
+			if len(o) == 2 && (o[0] == "1" || o[1] == "1") && !open {
+				k := "unsecured"
+				if st&uint(xmpp.Authn) != 0 {
+					k = "already-authenticated"
+				}
+				r.Fail("sasl-runs-only-when-allowed", f[1]+"-"+k, lines, "SASL was offered / tried / negotiated in a session state in which it must not be: offered-or-tried="+o[0]+" negotiated="+o[1])
+			}
+		case "gs2":
+			// a -PLUS mechanism in <auth/> on a connection with a TLS state must announce binding
+			if len(o) == 2 && strings.HasSuffix(decName(o[0]), "-PLUS") && (f[1] == "2" || f[1] == "3") && !strings.HasPrefix(o[1], "p=") {
+				r.Fail("client-channel-binding-lost", "kind="+f[1], lines, "a -PLUS mechanism was used on a connection with a TLS state without channel binding: flag "+o[1])
+			}
+			if len(o) == 2 && o[0] != "-" {
+				adv := decNames(f[3])
+				ok := false
+				for _, a := range adv {
+					if a == decName(o[0]) {
+						ok = true
+					}
+				}
+				if !ok {
+					r.Fail("client-mechanism-selection", "not-advertised", lines, "the mechanism in <auth/> was not advertised")
+				}
+			}
+		case "opts":
+			if len(o) >= 1 {
+				want := f[2] == "2" || f[2] == "3"
+				if (o[0] == "1") != want {
+					r.Fail("negotiator-tls-state", f[1]+"-kind="+f[2], lines, "the mechanism's negotiator sees a TLS state iff the connection reports one with a version: seen="+o[0])
+				}
+			}
+		}
+	}
+	defer func() { probeSink = nil }()
+	tab := ""
+	if only != "" {
+		tab = strings.Fields(only)[0]
+	}
+	if tab == "" || tab == "gate" {
+		_ = gateMasks()
+	}
+	if tab == "" || tab == "gaterun" {
+		_ = gateRuns()
+	}
+	if tab == "" || tab == "opts" {
+		_ = negOpts()
+	}
+	if tab == "" || tab == "gs2" {
+		_ = scramGs2()
+	}
 }
